@@ -67,6 +67,18 @@ func (p *Pool) Put(v interface{}) {
 // sim primitive; invariant evaluators recover it and skip the evaluation.
 type WouldBlock struct{ What string }
 
+// SingleGoroutine is set by harnesses that drive the code under test from one goroutine without a simulation (the
+// sequential fault harnesses): there a lock that is not free can never become free, so instead of hanging the worker
+// process until the watchdog kills it the shim panics with SelfDeadlock and the harness reports it.
+var SingleGoroutine bool
+
+// SelfDeadlock is that panic value.
+type SelfDeadlock struct{ What string }
+
+func (d SelfDeadlock) Error() string {
+	return "sync: " + d.What + " on a lock that is held and can never be released (the only goroutine is the caller)"
+}
+
 // Fatal stands for the runtime's unrecoverable "fatal error: sync: ..." aborts.
 type Fatal string
 
@@ -91,6 +103,11 @@ type Mutex struct {
 func (m *Mutex) Lock() {
 	s, t := ctx()
 	if s == nil {
+		if SingleGoroutine && !m.real.TryLock() {
+			panic(SelfDeadlock{"Mutex.Lock"})
+		} else if SingleGoroutine {
+			return
+		}
 		m.real.Lock()
 		return
 	}
@@ -128,6 +145,13 @@ func (m *Mutex) TryLock() bool {
 func (m *Mutex) Unlock() {
 	s, t := ctx()
 	if s == nil {
+		// outside a simulation the shim is the real mutex; the misuse that the runtime answers with an unrecoverable
+		// "fatal error" is turned into an ordinary panic where it can be seen without a side effect (nobody holds the lock),
+		// so that a sequential harness can report it instead of losing the whole worker process
+		if m.real.TryLock() {
+			m.real.Unlock()
+			panic(Fatal("sync: unlock of unlocked mutex"))
+		}
 		m.real.Unlock()
 		return
 	}
@@ -161,6 +185,11 @@ type rwWaiter struct{ admitted bool }
 func (rw *RWMutex) RLock() {
 	s, t := ctx()
 	if s == nil {
+		if SingleGoroutine && !rw.real.TryRLock() {
+			panic(SelfDeadlock{"RWMutex.RLock"})
+		} else if SingleGoroutine {
+			return
+		}
 		rw.real.RLock()
 		return
 	}
@@ -196,6 +225,10 @@ func (rw *RWMutex) TryRLock() bool {
 func (rw *RWMutex) RUnlock() {
 	s, t := ctx()
 	if s == nil {
+		if rw.real.TryLock() {
+			rw.real.Unlock()
+			panic(Fatal("sync: RUnlock of unlocked RWMutex"))
+		}
 		rw.real.RUnlock()
 		return
 	}
@@ -211,6 +244,11 @@ func (rw *RWMutex) RUnlock() {
 func (rw *RWMutex) Lock() {
 	s, t := ctx()
 	if s == nil {
+		if SingleGoroutine && !rw.real.TryLock() {
+			panic(SelfDeadlock{"RWMutex.Lock"})
+		} else if SingleGoroutine {
+			return
+		}
 		rw.real.Lock()
 		return
 	}
@@ -250,6 +288,10 @@ func (rw *RWMutex) TryLock() bool {
 func (rw *RWMutex) Unlock() {
 	s, t := ctx()
 	if s == nil {
+		if rw.real.TryLock() {
+			rw.real.Unlock()
+			panic(Fatal("sync: Unlock of unlocked RWMutex"))
+		}
 		rw.real.Unlock()
 		return
 	}
